@@ -326,10 +326,12 @@ func describeGuards(b *ssa.BasicBlock) []string {
 		if f.Kind == "nil" && f.X != nil && isErrorType(f.X.Type()) {
 			continue
 		}
-		t := describeFact(f)
-		if strings.Contains(t, "loop") || strings.Contains(t, "next(") {
+		// loop-continuation tests (the header's own `i < len(xs)` / `ok` of a map or channel range) are noise; a test on a
+		// value that merely derives from the loop variable is a real guard and is kept
+		if f.If != nil && loopHeader(f.If.Block()) == f.If.Block() {
 			continue
 		}
+		t := describeFact(f)
 		out = append(out, t)
 	}
 	return uniq(out)
